@@ -26,11 +26,6 @@ model('__init__.ConfigurationSyntaxError', fields={'specifier': 'str', 'has_spec
       optional={'specifier': 'has_specifier'}, defaults={'has_specifier': 'False'}, ghost_fields=('has_specifier',))
 
 # ---- the loader ----------------------------------------------------------------------------------------------------
-inline('loader.BaseLoader.__init__')
-model('loader.ConfigLoader', fields={'schema': 'Ref[info.SectionType]', '_private_schema': 'bool'})
-contract('loader.ConfigLoader.__init__', params={'schema': 'Ref[info.SectionType]'},
-         ensures=[Clause('self.schema == schema and not self._private_schema', carries='C13',
-                         label='uses-the-given-schema')])
 PATHS_OK = Clause('forall(lambda i: implies(0 <= i and i < len(self.clopts), len(self.clopts[i][0]) >= 1))',
                   label='every-override-has-a-path')
 model('cmdline.ExtendedConfigLoader', fields={'clopts': ITEMS}, invariant=[PATHS_OK])
@@ -180,11 +175,6 @@ contract('matcher.SchemaMatcher.__init__', params={'schema': 'Ref[info.SectionTy
                   Clause('forall(lambda i: implies(0 <= i and i < len(schema._children), '
                          'slot_empty(schema._children[i][1], self._values)))', carries='C01,C02,C13',
                          label='every-attribute-starts-empty')])
-contract('loader.ConfigLoader.createSchemaMatcher', returns='Ref[matcher.SchemaMatcher]', fresh_result=True,
-         requires=[Clause('invariant_of(self.schema)', label='RI-of-the-schema')],
-         ensures=[Clause('fresh(result) and result.type == self.schema and len(result.handlers.items) == 0 and '
-                         'fresh(result.handlers)', carries='C13', label='new-matcher-for-the-schema')],
-         static_ensures=[Clause("isclass(result, 'matcher.SchemaMatcher')", label='constructs-a-plain-schema-matcher')])
 CBS0 = 'bag_split(self.clopts, self.schema.keytype, 0, {}, [])'
 contract('cmdline.ExtendedConfigLoader.createSchemaMatcher', returns='Ref[matcher.SchemaMatcher]', fresh_result=True,
          requires=[Clause('invariant_of(self.schema)', label='RI-of-the-schema')],
@@ -237,3 +227,15 @@ contract('cmdline.MatcherMixin.finish_optionbag',
          loops=[Loop(invariant=list(contracts.matcher.MI), locals={'key': 'str'},
                      modifies=['self._values', 'self.optionbag.keypairs']),
                 Loop(invariant=list(contracts.matcher.MI), locals={'val': 'str', 'pos': OPOS}, modifies=['self._values'])])
+
+CONSUMED = Clause('len(self.optionbag.sectitems) == 0 and len(keys(self.optionbag.keypairs)) == 0', carries='C14',
+                  label='every-override-was-consumed-before-the-section-is-completed')
+contract('cmdline.ExtendedSectionMatcher.finish', returns='Ref[matcher.SectionValue]', fresh_result=True,
+         modifies=['self._values', 'self.handlers.items', 'self.optionbag.keypairs'],
+         ensures=[CONSUMED] + list(contracts.matcher.VALUE_OF),
+         raises=[Raise('ZConfig.ConfigurationError+', carries='C14,C07', label='override-or-section-rejected')])
+contract('cmdline.ExtendedSchemaMatcher.finish', returns='Opaque[PyVal]',
+         modifies=['self._values', 'self.handlers.items', 'self.optionbag.keypairs'],
+         ensures=[CONSUMED],
+         raises=[Raise('ZConfig.ConfigurationError+', carries='C14,C07', label='override-or-text-rejected'),
+                 Raise('ValueError', label='the schema datatype itself raised (passes through unchanged, C07)')])
